@@ -312,6 +312,22 @@ def config_tables():
     return layers, upd, comp_layer
 
 
+# --------------------------------------------------------------------------- resource types
+
+def resource_tables():
+    rs = _parse("framework/resource.py")
+    types = null = None
+    for n in rs.body:
+        if isinstance(n, ast.Assign) and len(n.targets) == 1 and isinstance(n.targets[0], ast.Name):
+            if n.targets[0].id == "RESOURCE_TYPES":
+                types = sorted(_lit(n.value))
+            elif n.targets[0].id == "NULL_RESOURCE_TYPE":
+                null = _lit(n.value)
+    if types is None or null is None:
+        raise TranslationError("resource.py: RESOURCE_TYPES / NULL_RESOURCE_TYPE not found")
+    return types, null
+
+
 # --------------------------------------------------------------------------- interactive stepping APIs
 
 def interactive_tables():
@@ -374,6 +390,7 @@ def render_tables() -> str:
     n_buckets, default_prio, t_ok, s_ok, fwd = event_tables()
     layers, upd, comp_layer = config_tables()
     ru_cmp, ts_forwards, step_guarded = interactive_tables()
+    res_types, null_type = resource_tables()
     o = []
     o.append("/-! GENERATED by vcheck/translate.py from the working tree of the repository under test.")
     o.append("    Never edited by hand; rewritten (when changed) by every run of `./check`. -/")
@@ -429,6 +446,9 @@ def render_tables() -> str:
     o.append("]")
     o.append("/-- layer written by `ComponentManager.apply_configuration_defaults` -/")
     o.append('def componentDefaultsLayer : String := "%s"\n' % comp_layer)
+    o.append("/-- `RESOURCE_TYPES` (a set; rendered sorted) and `NULL_RESOURCE_TYPE` of framework/resource.py -/")
+    o.append("def resourceTypes : List String := %s" % _lstr(res_types))
+    o.append('def nullResourceType : String := "%s"\n' % null_type)
     o.append("/-- `InteractiveContext.run_until`: comparison of its `while <time> ? end_time` stepping loop (\"none\" = no such loop) -/")
     o.append('def runUntilLoopCmp : String := "%s"' % ru_cmp)
     o.append("/-- `take_steps` never rebinds `step_size` and passes exactly it to every `self.step(...)` -/")
